@@ -24,6 +24,8 @@ type c20Fail struct {
 	Code  int    `json:"code"`
 	Code2 int    `json:"code2"` // RCPT: code of the *other* rejected recipients (0 = same)
 	Text  int    `json:"text"`  // text kind
+	// SD: "subject.detail" of the enhanced code the reply text carries ("" = "7.<last digit of the code>")
+	SD string `json:"sd,omitempty"`
 }
 
 type c20Case struct {
@@ -38,9 +40,12 @@ type c20Case struct {
 
 var c20TextNames = []string{"esc-at-start", "plain", "triple-inside", "multiline-esc", "esc-not-at-start", "esc-then-percent-verbs"}
 
-func c20Text(kind, code int) (lines []string, leadESC string) {
+func c20Text(kind, code int, sd ...string) (lines []string, leadESC string) {
 	cls := code / 100
 	esc := fmt.Sprintf("%d.7.%d", cls, code%10)
+	if len(sd) > 0 && sd[0] != "" {
+		esc = fmt.Sprintf("%d.%s", cls, sd[0])
+	}
 	switch kind {
 	case 0:
 		return []string{esc + " mailbox unavailable"}, esc
@@ -81,10 +86,10 @@ func c20Exec(r *vf.Run, k c20Case) (keys, whats []string) {
 	for _, f := range fails {
 		txn := f.Msg + 1
 		mk := func(code int) refsmtp.Action {
-			lines, _ := c20Text(f.Text, code)
+			lines, _ := c20Text(f.Text, code, f.SD)
 			return refsmtp.Action{Kind: refsmtp.ActReply, Code: code, Text: lines}
 		}
-		_, lead := c20Text(f.Text, f.Code)
+		_, lead := c20Text(f.Text, f.Code, f.SD)
 		e := &exp[f.Msg]
 		switch f.Pos {
 		case "MAIL":
@@ -103,7 +108,7 @@ func c20Exec(r *vf.Run, k c20Case) (keys, whats []string) {
 					last = code
 				}
 			}
-			_, lead = c20Text(f.Text, last)
+			_, lead = c20Text(f.Text, last, f.SD)
 			e.failed, e.reason, e.code, e.esc = true, mail.ErrSMTPRcptTo, last, lead
 		case "DATA":
 			over[fmt.Sprintf("DATA#%d", txn)] = mk(f.Code)
@@ -126,7 +131,7 @@ func c20Exec(r *vf.Run, k c20Case) (keys, whats []string) {
 	rsetFor := map[int]refsmtp.Action{}
 	for _, f := range k.Fails {
 		if f.Pos == "RSET" {
-			lines, _ := c20Text(f.Text, f.Code)
+			lines, _ := c20Text(f.Text, f.Code, f.SD)
 			rsetFor[f.Msg+1] = refsmtp.Action{Kind: refsmtp.ActReply, Code: f.Code, Text: lines}
 		}
 	}
@@ -335,7 +340,7 @@ func init() {
 	vf.Register(&vf.Check{
 		ID: "C20", Title: "SendError reflects the server's verdict",
 		Run: func(r *vf.Run) {
-			r.SetRule("every reply code 400..599 × 6 reply-text kinds (enhanced code at start / plain / dotted triple inside / multi-line / enhanced code not at start / text with '%' format verbs) × position {MAIL, every non-empty subset of 3 RCPTs (mixed codes), DATA, end-of-data, RSET} × failing message 1..3 of a batch of 3 × ENHANCEDSTATUSCODES advertised or not, plus all pairs of failing messages; the oracle is a reference function of the replies the server actually sent; distinct by case tuple")
+			r.SetRule("every reply code 400..599 × 6 reply-text kinds (enhanced code at start / plain / dotted triple inside / multi-line / enhanced code not at start / text with '%' format verbs; enhanced codes with every subject/detail field of 1..3 digits from {0,1,7,10,77,100,255|509,999}) × position {MAIL, every non-empty subset of 3 RCPTs (mixed codes), DATA, end-of-data, RSET} × failing message 1..3 of a batch of 3 × ENHANCEDSTATUSCODES advertised or not, plus all pairs of failing messages; the oracle is a reference function of the replies the server actually sent; distinct by case tuple")
 			r.Assume("the list of rejected recipients is read from SendError.Error() (no exported accessor)", "a message whose delivery succeeded but whose trailing RSET failed counts as delivered")
 			var cases []c20Case
 			codes := []int{}
@@ -364,6 +369,18 @@ func init() {
 									}
 								}
 								cases = append(cases, c20Case{ESC: esc, M: 3, R: 3, Fails: []c20Fail{{Msg: msg, Pos: "RCPT", Mask: mask, Code: code, Code2: other, Text: text}}})
+							}
+						}
+					}
+				}
+				// the enhanced code itself: every subject and detail field of one to three digits from a small set
+				for _, code := range []int{421, 450, 550, 554} {
+					for _, pos := range []string{"MAIL", "RCPT", "DATA", "EOD", "RSET"} {
+						for _, sub := range []int{0, 1, 7, 10, 77, 100, 255, 999} {
+							for _, det := range []int{0, 1, 7, 10, 77, 100, 509, 999} {
+								for _, text := range []int{0, 3} {
+									cases = append(cases, c20Case{ESC: esc, M: 3, R: 3, Fails: []c20Fail{{Msg: (sub + det) % 3, Pos: pos, Mask: 1 + (sub+det)%7, Code: code, Text: text, SD: fmt.Sprintf("%d.%d", sub, det)}}})
+								}
 							}
 						}
 					}
